@@ -601,10 +601,21 @@ func v13OffBody(x *vexp.X, q *v13Run, path string) vexp.Result {
 	os.Remove(path)
 	dsp.SetOFF(3, q.sh.npre, q.sh.nsamp, 1, 1e-3, vT0, 1, 1, 1, 1, 0, 0, 0, path, "verif", "chan3", 3,
 		dsp.projectors, dsp.basis, dsp.modelDescription, Pixel{})
-	rec := v13NewRecord(q)
-	dsp.AnalyzeData([]*DataRecord{rec})
+	// one PublishData call with 1..3 records: the record itself and rotations of it (different coefficients)
+	nrec := 1 + x.Choose(3)
+	qs := make([]*v13Run, nrec)
+	recs := make([]*DataRecord, nrec)
+	for i := range qs {
+		d := make([]RawType, len(q.data))
+		for j := range d {
+			d[j] = q.data[(j+i)%len(d)]
+		}
+		qs[i] = &v13Run{sh: q.sh, signed: q.signed, data: d, m: q.m}
+		recs[i] = v13NewRecord(qs[i])
+	}
+	dsp.AnalyzeData(recs)
 	x.Steps += 3
-	if err := dsp.PublishData([]*DataRecord{rec}); err != nil {
+	if err := dsp.PublishData(recs); err != nil {
 		return vexp.Result{Violation: fmt.Sprintf("%v: PublishData: %v", q, err), Class: "c13-off-publish-error"}
 	}
 	dsp.RemoveOFF()
@@ -612,42 +623,48 @@ func v13OffBody(x *vexp.X, q *v13Run, path string) vexp.Result {
 	if err != nil {
 		return vexp.Result{Violation: fmt.Sprintf("%v: OFF file unreadable: %v", q, err), Class: "c13-off-unreadable"}
 	}
-	if len(f.records) != 1 {
-		return vexp.Result{Violation: fmt.Sprintf("%v: OFF file holds %d records, 1 written", q, len(f.records)), Class: "c13-off-record-count"}
+	if len(f.records) != nrec {
+		return vexp.Result{Violation: fmt.Sprintf("%v: OFF file holds %d records, %d written", q, len(f.records), nrec), Class: "c13-off-record-count"}
 	}
-	st := v13StatsCached(q.data, q.sh.npre, q.signed)
-	wantC, wantR := v13RefModel(q.data, q.signed, q.m)
-	r := f.records[0]
-	x.Logf("record %v", q)
-	x.Logf("  want: ptMean=%v ptDelta=%v resid=%v coefs=%v", st.ptMean, st.ptDelta, wantR, wantC)
-	x.Logf("  file: ptMean=%v ptDelta=%v resid=%v coefs=%v", r.ptMean, r.ptDelta, r.resid, r.coefs)
-	out := make([]byte, 0, 32)
-	for _, v := range append([]float32{r.ptMean, r.ptDelta, r.resid}, r.coefs...) {
-		out = binary.LittleEndian.AppendUint32(out, math.Float32bits(v))
-	}
-	res := vexp.Result{Nontrivial: !st.constant, Outcome: "off|" + hex.EncodeToString(out)}
-	bad := func(class, f string, a ...interface{}) vexp.Result {
-		res.Violation, res.Class = fmt.Sprintf("%v: OFF file: ", q)+fmt.Sprintf(f, a...), class
-		return res
-	}
-	if int(r.nsamp) != q.sh.nsamp || int(r.npre) != q.sh.npre {
-		return bad("c13-off-lengths", "lengths %d/%d", r.npre, r.nsamp)
-	}
-	if !v13Close32(r.ptMean, st.ptMean) {
-		return bad("c13-off-pretrig-mean", "pretrigger mean %v, definition gives %v", r.ptMean, st.ptMean)
-	}
-	if !v13Close32(r.ptDelta, st.ptDelta) {
-		return bad("c13-off-pretrig-delta", "pretrigger delta %v, least-squares slope x (npre-1) is %v", r.ptDelta, st.ptDelta)
-	}
-	if !v13Close32(r.resid, wantR) {
-		return bad("c13-off-residual", "residual std dev %v, definition gives %v", r.resid, wantR)
-	}
-	if len(r.coefs) != len(wantC) {
-		return bad("c13-off-coef-count", "%d coefficients for %d projector rows", len(r.coefs), len(wantC))
-	}
-	for k := range wantC {
-		if !v13Close32(r.coefs[k], wantC[k]) {
-			return bad("c13-off-coef", "coefficient %d is %v, projectors x record gives %v", k, r.coefs[k], wantC[k])
+	res := vexp.Result{Outcome: "off"}
+	for ri, q := range qs {
+		st := v13StatsCached(q.data, q.sh.npre, q.signed)
+		wantC, wantR := v13RefModel(q.data, q.signed, q.m)
+		r := f.records[ri]
+		x.Logf("record %d of %d: %v", ri+1, nrec, q)
+		x.Logf("  want: ptMean=%v ptDelta=%v resid=%v coefs=%v", st.ptMean, st.ptDelta, wantR, wantC)
+		x.Logf("  file: ptMean=%v ptDelta=%v resid=%v coefs=%v", r.ptMean, r.ptDelta, r.resid, r.coefs)
+		out := make([]byte, 0, 32)
+		for _, v := range append([]float32{r.ptMean, r.ptDelta, r.resid}, r.coefs...) {
+			out = binary.LittleEndian.AppendUint32(out, math.Float32bits(v))
+		}
+		res.Outcome += "|" + hex.EncodeToString(out)
+		if !st.constant {
+			res.Nontrivial = true
+		}
+		bad := func(class, f string, a ...interface{}) vexp.Result {
+			res.Violation, res.Class = fmt.Sprintf("%v: OFF file, record %d of the %d published in one call: ", q, ri+1, nrec)+fmt.Sprintf(f, a...), class
+			return res
+		}
+		if int(r.nsamp) != q.sh.nsamp || int(r.npre) != q.sh.npre {
+			return bad("c13-off-lengths", "lengths %d/%d", r.npre, r.nsamp)
+		}
+		if !v13Close32(r.ptMean, st.ptMean) {
+			return bad("c13-off-pretrig-mean", "pretrigger mean %v, definition gives %v", r.ptMean, st.ptMean)
+		}
+		if !v13Close32(r.ptDelta, st.ptDelta) {
+			return bad("c13-off-pretrig-delta", "pretrigger delta %v, least-squares slope x (npre-1) is %v", r.ptDelta, st.ptDelta)
+		}
+		if !v13Close32(r.resid, wantR) {
+			return bad("c13-off-residual", "residual std dev %v, definition gives %v", r.resid, wantR)
+		}
+		if len(r.coefs) != len(wantC) {
+			return bad("c13-off-coef-count", "%d coefficients for %d projector rows", len(r.coefs), len(wantC))
+		}
+		for k := range wantC {
+			if !v13Close32(r.coefs[k], wantC[k]) {
+				return bad("c13-off-coef", "coefficient %d is %v, projectors x record gives %v", k, r.coefs[k], wantC[k])
+			}
 		}
 	}
 	return res
@@ -685,7 +702,7 @@ func TestVerifC13(t *testing.T) {
 	if thorough {
 		bound += " (3,4): every 2-basis projector matrix (5^8) with a fixed basis and every 2-basis basis matrix with fixed projectors on 6 records;"
 	}
-	bound += " all projector/basis shape pairs within +-1 of compatible (and empty matrices) with and without a previous model; (3,4) records x 4 models through the real OFF writer; every pair (thorough: also every triple over {0,1,ffff}) of (3,4) records over a 3-value (thorough 4-value) alphabet x {no model, 4 models} through one processor in one AnalyzeData call and in successive calls, all records checked after the last call"
+	bound += " all projector/basis shape pairs within +-1 of compatible (and empty matrices) with and without a previous model; (3,4) records x 4 models through the real OFF writer, 1-3 records (rotations) per PublishData call; every pair (thorough: also every triple over {0,1,ffff}) of (3,4) records over a 3-value (thorough 4-value) alphabet x {no model, 4 models} through one processor in one AnalyzeData call and in successive calls, all records checked after the last call"
 	r.SetBound(bound)
 
 	// family A: records x pattern models
